@@ -101,7 +101,7 @@ Definition cu_item_present (s : cu_state) (ignore : bool) (it : cu_item) : Prop 
 Definition cu_restates (s : cu_state) (u : cu_update) : Prop :=
   match u with
   | UNoop => True
-  | UMailboxCreated rid _ => rid <> cu_recovery_rid /\ cu_find_mb_rid s rid <> None
+  | UMailboxCreated rid _ _ _ _ => rid <> cu_recovery_rid /\ cu_find_mb_rid s rid <> None
   | UMailboxDeleted rid => rid <> cu_recovery_rid /\ cu_find_mb_rid s rid = None
   | UMailboxUpdated rid name =>
       rid <> cu_recovery_rid /\
@@ -390,7 +390,7 @@ Qed.
 (* ---------- duplicate delivery: applying a successfully applied update again ---------- *)
 Definition cu_simple_kind (u : cu_update) : bool :=
   match u with
-  | UMailboxCreated _ _ | UMailboxDeleted _ | UMailboxUpdated _ _ | UMessageDeleted _ | UMessageIDChanged _ _ | UNoop => true
+  | UMailboxCreated _ _ _ _ _ | UMailboxDeleted _ | UMailboxUpdated _ _ | UMessageDeleted _ | UMessageIDChanged _ _ | UNoop => true
   | UMailboxIDChanged _ rid => negb (rid =? cu_recovery_rid)
   | _ => false
   end.
@@ -423,12 +423,12 @@ Proof.
     { injection H as H1 H2. subst. rewrite Ef, En. exists []. auto. }
     destruct (existsb (fun x => (mb_name x =? nm) && negb (mb_rid x =? rid)) (st_mb s)) eqn:Ec; [discriminate|].
     injection H as H1 H2. subst s1 sus.
-    set (g := fun x => if mb_rid x =? rid then mkMb (mb_id x) (mb_rid x) nm (mb_uidv x) (mb_sub x) else x).
+    set (g := fun x => if mb_rid x =? rid then mkMb (mb_id x) (mb_rid x) nm (mb_uidv x) (mb_sub x) (mb_flags x) (mb_perm x) (mb_attrs x) else x).
     assert (Hg : forall x, (mb_rid (g x) =? rid) = (mb_rid x =? rid)).
     { intros x. unfold g. destruct (mb_rid x =? rid) eqn:E; [cbn [mb_rid]; exact E|exact E]. }
     unfold cu_find_mb_rid at 1. unfold cu_with_mb at 1. cbn [st_mb]. rewrite (find_map_pres _ g _ Hg).
     unfold cu_find_mb_rid in Ef. rewrite Ef. cbn [option_map].
-    assert (Hgm : g m = mkMb (mb_id m) (mb_rid m) nm (mb_uidv m) (mb_sub m)).
+    assert (Hgm : g m = mkMb (mb_id m) (mb_rid m) nm (mb_uidv m) (mb_sub m) (mb_flags m) (mb_perm m) (mb_attrs m)).
     { unfold g. apply find_some in Ef. destruct Ef as [_ Ef]. rewrite Ef. reflexivity. }
     rewrite Hgm. cbn [mb_name]. destruct (nm =? nm); [exists []; auto|].
     rewrite existsb_false.
@@ -450,12 +450,12 @@ Proof.
     destruct (mb_rid m =? cu_recovery_rid); [discriminate|].
     destruct (existsb (fun x => (mb_rid x =? rid) && negb (mb_id x =? iid)) (st_mb s)) eqn:Ec; [discriminate|].
     injection H as H1 H2. subst s1 sus.
-    set (g := fun x => if mb_id x =? iid then mkMb (mb_id x) rid (mb_name x) (mb_uidv x) (mb_sub x) else x).
+    set (g := fun x => if mb_id x =? iid then mkMb (mb_id x) rid (mb_name x) (mb_uidv x) (mb_sub x) (mb_flags x) (mb_perm x) (mb_attrs x) else x).
     assert (Hg : forall x, (mb_id (g x) =? iid) = (mb_id x =? iid)).
     { intros x. unfold g. destruct (mb_id x =? iid) eqn:E; [cbn [mb_id]; exact E|exact E]. }
     unfold cu_find_mb_id at 1. unfold cu_with_mb at 1. cbn [st_mb]. rewrite (find_map_pres _ g _ Hg).
     unfold cu_find_mb_id in Ef. rewrite Ef. cbn [option_map].
-    assert (Hgm : g m = mkMb (mb_id m) rid (mb_name m) (mb_uidv m) (mb_sub m)).
+    assert (Hgm : g m = mkMb (mb_id m) rid (mb_name m) (mb_uidv m) (mb_sub m) (mb_flags m) (mb_perm m) (mb_attrs m)).
     { unfold g. apply find_some in Ef. destruct Ef as [_ Ef]. rewrite Ef. reflexivity. }
     rewrite Hgm. cbn [mb_rid]. rewrite K.
     rewrite existsb_false.
@@ -529,12 +529,12 @@ Proof.
 Qed.
 
 (* ---------- effects of valid updates ---------- *)
-Lemma mailbox_created_effect : forall s e rid name v vs,
+Lemma mailbox_created_effect : forall s e rid name fl pf att v vs,
   rid <> cu_recovery_rid -> cu_find_mb_rid s rid = None -> cu_find_mb_name s (cu_canon_name name) = None -> e_uidv e = v :: vs ->
-  cu_apply s e (UMailboxCreated rid name) =
-    (mkSt (st_mb s ++ [mkMb (st_nextmb s) rid (cu_canon_name name) v true]) (st_ms s) (st_me s) (st_seq s) (st_nextmb s + 1) (st_dsub s), AOk, []).
+  cu_apply s e (UMailboxCreated rid name fl pf att) =
+    (mkSt (st_mb s ++ [mkMb (st_nextmb s) rid (cu_canon_name name) v true fl pf att]) (st_ms s) (st_me s) (st_seq s) (st_nextmb s + 1) (st_dsub s), AOk, []).
 Proof.
-  intros s e rid name v vs H1 H2 H3 H4. unfold cu_apply. cbn [cu_tx]. apply N.eqb_neq in H1. rewrite H1, H2, H4, H3. reflexivity.
+  intros s e rid name fl pf att v vs H1 H2 H3 H4. unfold cu_apply. cbn [cu_tx]. apply N.eqb_neq in H1. rewrite H1, H2, H4, H3. reflexivity.
 Qed.
 
 Lemma mailbox_deleted_effect : forall s e rid m, rid <> cu_recovery_rid -> cu_find_mb_rid s rid = Some m ->
@@ -902,11 +902,11 @@ Lemma mailbox_updated_effect : forall s e rid name m, rid <> cu_recovery_rid -> 
 Proof.
   intros s e rid name m H1 H2 H3 H4. unfold cu_apply. cbn [cu_tx]. apply N.eqb_neq in H1. rewrite H1, H2.
   apply N.eqb_neq in H3. rewrite H3, H4.
-  set (g := fun x => if mb_rid x =? rid then mkMb (mb_id x) (mb_rid x) (cu_canon_name name) (mb_uidv x) (mb_sub x) else x).
+  set (g := fun x => if mb_rid x =? rid then mkMb (mb_id x) (mb_rid x) (cu_canon_name name) (mb_uidv x) (mb_sub x) (mb_flags x) (mb_perm x) (mb_attrs x) else x).
   assert (Hg : forall x, (mb_rid (g x) =? rid) = (mb_rid x =? rid)).
   { intros x. unfold g. destruct (mb_rid x =? rid) eqn:E; [cbn [mb_rid]; exact E|exact E]. }
   eexists. exists (g m). split; [reflexivity|]. unfold cu_with_mb. cbn [st_mb st_ms st_me st_seq]. fold g.
-  assert (Hgm : g m = mkMb (mb_id m) (mb_rid m) (cu_canon_name name) (mb_uidv m) (mb_sub m)).
+  assert (Hgm : g m = mkMb (mb_id m) (mb_rid m) (cu_canon_name name) (mb_uidv m) (mb_sub m) (mb_flags m) (mb_perm m) (mb_attrs m)).
   { unfold g. apply find_some in H2. destruct H2 as [_ H2]. rewrite H2. reflexivity. }
   repeat split.
   - unfold cu_find_mb_rid. cbn [st_mb]. rewrite (find_map_pres _ g _ Hg). unfold cu_find_mb_rid in H2. rewrite H2. reflexivity.
